@@ -33,6 +33,12 @@ func main() {
 	tx.AddTxOut(wire.NewTxOut(5, append(append([]byte{33}, itemX...), 0xac), wire.TokenData{}))
 	gkey := [16]byte{1, 2, 3}
 	gf, _ := gcs.BuildGCSFilter(19, 784931, gkey, [][]byte{[]byte("a"), []byte("b"), []byte("c"), []byte("d")})
+	var bigSet [][]byte
+	for i := 0; i < 1100; i++ {
+		bigSet = append(bigSet, []byte(fmt.Sprintf("m%04d", i)))
+	}
+	bgf, _ := gcs.BuildGCSFilter(19, 784931, gkey, bigSet)
+	bigQ := [][]byte{[]byte("nope"), []byte("m0500"), []byte("zz"), []byte("m1099")}
 	total := 0
 	for cfg := 0; cfg < configs; cfg++ {
 		m0 := wire.NewMsgFilterLoad(make([]byte, 1+cfg%3), uint32(1+cfg%2), 0x1234, wire.BloomUpdateAll)
@@ -45,6 +51,10 @@ func main() {
 			go func(g int) {
 				defer wg.Done()
 				mytx := bchutil.NewTx(tx)
+				// a filter of this goroutine's own: nothing is shared with the others except what the
+				// package shares between all filters (scratch buffers, pools, tables)
+				own := bloom.LoadFilter(wire.NewMsgFilterLoad(make([]byte, 8), 2, uint32(g), wire.BloomUpdateAll))
+				ownOut := wire.OutPoint{Hash: chainhash.Hash{byte(g), 0x77}, Index: uint32(g)}
 				<-start
 				for step := 0; step < 3; step++ {
 					op := ops[(cfg*7+g*13+step*5)%len(ops)]
@@ -76,6 +86,16 @@ func main() {
 					case "Msg":
 						f.MsgFilterLoad()
 					}
+					own.AddOutPoint(&ownOut)
+					own.Add(itemY)
+					own.AddHash(&hashH)
+					if !own.MatchesOutPoint(&ownOut) || !own.Matches(itemY) {
+						fmt.Println("own filter lost an insertion")
+						os.Exit(3)
+					}
+					own.MatchTxAndUpdate(mytx)
+					bgf.HashMatchAny(gkey, bigQ)
+					bgf.ZipMatchAny(gkey, bigQ[:3])
 					// GCS queries on the shared immutable filter
 					switch (g + step) % 4 {
 					case 0:
